@@ -13,6 +13,7 @@ package shimagent
 //@ protected exclusive Server.agent, Server.conn by Server.mu
 
 //@ ghost func inv(s *Server) bool = s.agent != nil && s.conn != nil && s.certs != nil && s.upstreamSSHCACertCache != nil
+//@ ghost func condsOK(s *Server) bool = forall(i, 0 <= i && i < 40, s.conds[i] != nil && s.conds[i].L != nil && mstate(pl(s.conds[i].L)) == 0)
 //@ ghost func unheld(s *Server) bool = mstate(addrof(s.mu)) == 0
 //@ ghost func wheld(s *Server) bool = mstate(addrof(s.mu)) == 1
 
@@ -69,7 +70,7 @@ package shimagent
 //@ func (*Server).Broadcast(s, msg)
 //@   flag logged
 //@   requires s != nil
-//@   requires forall(i, 0 <= i && i < 40, s.conds[i] != nil && s.conds[i].L != nil && mstate(pl(s.conds[i].L)) == 0)
+//@   requires condsOK(s)
 //@   modifies mstate(pl(s.conds[msg % 40].L))
 //@   ensures result == nil
 //@   ensures [exactly-that-code-is-woken] msg < 40 ==> (calls(Cond.Broadcast) == old(calls(Cond.Broadcast)) + 1 &&
@@ -80,7 +81,7 @@ package shimagent
 
 //@ func (*Server).Wait(s, msg)
 //@   requires s != nil
-//@   requires forall(i, 0 <= i && i < 40, s.conds[i] != nil && s.conds[i].L != nil && mstate(pl(s.conds[i].L)) == 0)
+//@   requires condsOK(s)
 //@   modifies mstate(pl(s.conds[msg % 40].L))
 //@   ensures result == nil
 //@   ensures [waits-on-that-code-only] msg < 40 ==> (calls(Cond.Wait) == old(calls(Cond.Wait)) + 1 &&
